@@ -8,6 +8,20 @@ kf = json.load(open(f'{V}/known_findings.json'))
 man = json.load(open(f'{V}/MANIFEST.json'))
 out = [open(f'{V}/tools/asbuilt_head.md').read().rstrip(), '']
 
+# ---- per-check table
+out.append('## 10.3 Checks as built (from MANIFEST.json)\n')
+out.append('Where this table and section 8 disagree, this table is what the code does.\n')
+out.append('| property | deciding technique | level and limits |')
+out.append('|---|---|---|')
+for c in man['checks']:
+    t = c['technique'].replace('|', '\\|')
+    n = (c['level_claimed']['text'] + ' ' + c.get('level_note', '')).replace('|', '\\|')
+    out.append(f"| {c['property_id']} | {t} | {n} |")
+out.append('')
+na = man.get('not_applicable', [])
+if na:
+    out.append('Not claimed: ' + '; '.join(f"{x['property_id']} ({x['reason']})" for x in na) + '\n')
+
 # ---- hooks
 out.append('## 11. Hooks in elk-language/elk (build tag `verif`)\n')
 hooks = man.get('hooks', {})
@@ -57,8 +71,11 @@ if os.path.exists(f'{V}/seeded/RESULTS.json'):
 out.append('## 14. Seeded changes (made by sub-agents that saw only the property text) and which check catches them\n')
 out.append('Each change compiles, passes the repository test suite and breaks the property on a demonstration input; '
            'all of that was confirmed in a scratch worktree (`tools/confirm_seed.sh`) before it was kept under `seeded/`. '
-           '`caught` = the quick tier of the check exits 1 with a VIOLATION line when the change is applied to `/repo` '
-           '(`tools/seedtest.sh`), and is silent again after `git checkout`.\n')
+           '`caught` = the quick tier of the check exits 1 with a VIOLATION line (first signatures shown) when the change is '
+           'applied to a scratch worktree at `/repo`\'s HEAD and the harness is rebuilt against it (`tools/seedrun.sh`; '
+           '`tools/seedtest.sh` does the same on `/repo` itself and undoes it with `git checkout`). Seeded changes were made '
+           'against the pinned tree; where a later `fix:` commit rewrote the code they touch, the change was adapted by hand '
+           'or is marked as superseded.\n')
 out.append('| seeded change | what it breaks | checks run | result |')
 out.append('|---|---|---|---|')
 for d in sorted(glob.glob(f'{V}/seeded/C*-*')):
